@@ -662,6 +662,16 @@ def array_equal(a, b, equal_nan=False):
   return mkbool(z3.And(*terms))
 
 
+def _truthy(dt, x):
+  """z3 Bool: element is non-zero (NumPy truthiness)."""
+  if B.is_bool(dt):
+    return x
+  zero = _backend.const(dt, 0)
+  if B.is_float(dt):
+    return z3.Not(_backend.fcmp('eq', dt, x, zero))
+  return x != zero
+
+
 def all_(a, axis=None):
   arr, _ = _operand(a)
   if axis is not None:
@@ -672,9 +682,7 @@ def all_(a, axis=None):
       if not bool(x):
         return False
     else:
-      if not B.is_bool(arr.dtype):
-        raise Unsupported('all() on non-bool symbolic')
-      terms.append(x)
+      terms.append(_truthy(arr.dtype, x))
   if not terms:
     return True
   return mkbool(z3.And(*terms))
@@ -690,7 +698,7 @@ def any_(a, axis=None):
       if bool(x):
         return True
     else:
-      terms.append(x)
+      terms.append(_truthy(arr.dtype, x))
   if not terms:
     return False
   return mkbool(z3.Or(*terms))
@@ -879,7 +887,7 @@ _SHIM = {
     'sum': sum_, 'array_equal': array_equal, 'array': array,
     'asarray': asarray, 'frombuffer': frombuffer, 'pad': pad,
     'nan_to_num': nan_to_num, 'median': median, 'shape': shape, 'ndim': ndim,
-    'all': all_, 'any': any_,
+    'all': all_, 'any': any_, 'count_nonzero': lambda a: (_ for _ in ()).throw(Unsupported('count_nonzero')),
 }
 
 
